@@ -46,7 +46,7 @@ def nlToBrGo : Bool → Bytes → Bytes
     else if b == 10 then (if prevCR then nlToBrGo false r else brTag ++ nlToBrGo false r)
     else b :: nlToBrGo false r
 
-def changeNewlineToBr (s : Bytes) : Bytes := nlToBrGo false (goHtmlEscape s)
+def changeNewlineToBr (s : Bytes) : Bytes := nlToBrGo false (htmlEscape s)
 
 /-! ## insertWordBreaks (entity-aware, bytewise copy) -/
 
@@ -65,7 +65,7 @@ def wordBreaksGo (maxChars : Int) : Nat → Nat → Bool → Bytes → Bytes
     else b :: wordBreaksGo maxChars (d.2 - 1) (chars + 1) (d.1 == 38) r
 
 def insertWordBreaks (s : Bytes) (maxChars : Int) : Bytes :=
-  wordBreaksGo maxChars 0 0 false (goHtmlEscape s)
+  wordBreaksGo maxChars 0 0 false (htmlEscape s)
 
 /-! ## truncate -/
 
@@ -122,7 +122,7 @@ def applyImpl (impl : Bytes) (v : Bytes) (args : List Arg) : Res Bytes :=
   else if impl == sDirectiveChangeNewlineToBr then .ok (changeNewlineToBr v)
   else if impl == sDirectiveTruncate then truncate v args
   else if impl == sDirectiveNoAutoescape then .ok v
-  else if impl == sDirectiveEscapeHtml then .ok (goHtmlEscape v)
+  else if impl == sDirectiveEscapeHtml then .ok (htmlEscape v)
   else if impl == sDirectiveEscapeUri then .ok (queryEscape v)
   else if impl == sDirectiveEscapeJsString then .ok (jsEscapeFixed v)
   else if impl == sDirectiveJson then .ok (jsonString v)
